@@ -1142,7 +1142,7 @@ def call_ext(it, dotted, args, kwargs):
     if short in ('asarray', 'asanyarray', 'atleast_1d') and mod == 'numpy':
         v = args[0]
         if isinstance(v, PolyT):
-            raise Undecidable('numpy.%s of a poly1d' % short)
+            return Arr(list(v.c))           # a poly1d converts to the array of its coefficients (highest power first)
         if isinstance(v, (list, tuple, Arr)):
             return _to_arr(it, v)
         if short == 'atleast_1d':
